@@ -42,6 +42,9 @@ var edge = []File{
 	{"edge/comments-everywhere", "package p\n\nfunc /*a*/ f /*b*/ ( /*c*/ a /*d*/ int /*e*/ ) /*f*/ int /*g*/ { /*h*/\n\treturn /*i*/ a /*j*/ + /*k*/ 1 /*l*/ // m\n\t// n\n} // o\n\n// p\n"},
 	{"edge/leading-blank-lines", "\n\n\npackage p\n\nvar x = 1\n"},
 	{"edge/leading-blank-lines-comment", "\n\n// c\n\n\npackage p\n"},
+	{"edge/odd-import-paths", "package p\n\nimport (\n\t\"net/\"\n\t\"/\"\n\t\"a//b\"\n\t\"./x\"\n\t\"a/v2\"\n\t\"a.b/c.v3\"\n\tq \"\"\n)\n\nvar _ = net.A + b.B + x.C + v2.D + c.E + q.F\n"},
+	{"edge/import-trailing-slash", "package p\n\nimport \"net/\"\n\nfunc f() { net.Dial() }\n"},
+	{"edge/split-selector", "package p\n\nimport \"fmt\"\n\nfunc f() {\n\tfmt.\n\t\tPrintln(fmt.\n\t\t\tSprint(1))\n\tvar x fmt.\n\t\tStringer\n\t_ = x\n}\n"},
 	{"edge/select-switch", "package p\n\nfunc f(c chan int) {\n\tselect {\n\t// a\n\tcase <-c:\n\t\t// b\n\tdefault:\n\t}\n\tswitch x := 1; {\n\tcase x > 0:\n\t\tfallthrough\n\tdefault:\n\t\t// c\n\t}\n}\n"},
 }
 
